@@ -135,8 +135,9 @@ const (
 )
 
 type CurCall struct {
-	C string `json:"c"` // first last next prev seek
+	C string `json:"c"` // first last next prev seek | put del cdel (mutations: the cursor must be repositioned afterwards)
 	K *B     `json:"k,omitempty"`
+	V *B     `json:"v,omitempty"`
 }
 
 type Op struct {
